@@ -2,12 +2,14 @@ module verifharness
 
 go 1.24.0
 
-require github.com/hashicorp/raft v0.0.0
+require (
+	github.com/hashicorp/go-hclog v1.6.3
+	github.com/hashicorp/raft v0.0.0
+)
 
 require (
 	github.com/armon/go-metrics v0.4.1 // indirect
 	github.com/fatih/color v1.13.0 // indirect
-	github.com/hashicorp/go-hclog v1.6.3 // indirect
 	github.com/hashicorp/go-immutable-radix v1.0.0 // indirect
 	github.com/hashicorp/go-metrics v0.5.4 // indirect
 	github.com/hashicorp/go-msgpack/v2 v2.1.5 // indirect
